@@ -92,11 +92,13 @@ type View struct {
 	Direct  []*Cell // exported definitions of directly used packages
 	Trans   []*Cell // exported definitions reachable only through two or more hops (don't-care)
 	Pending bool    // a reachable package exports the name (or may export it) without defining it
+	OwnMark bool    // p itself exports (or may export) the name without defining it
 }
 
 // View recomputes the resolution of name in p from the graph.
 func (w *World) View(p int, name string) (v View) {
 	v.Own = w.P[p].Def[name]
+	v.OwnMark = v.Own == nil && w.P[p].Exp[name] != No
 	for _, q := range w.reach(p) {
 		pk := w.P[q]
 		c := pk.Def[name]
